@@ -15,7 +15,7 @@ func InitGenesis(ctx sdk.Context, k *keeper.SettlementKeeper, genState types.Gen
 	k.SetParams(ctx, genState.Params)
 
 	for _, utxrWithTenantAndId := range genState.Utxrs {
-		if _, err := k.CreateUTXR(ctx, utxrWithTenantAndId.TenantId, &utxrWithTenantAndId.Utxr); err != nil {
+		if err := k.ImportUTXR(ctx, utxrWithTenantAndId.TenantId, utxrWithTenantAndId.Id, &utxrWithTenantAndId.Utxr); err != nil {
 			panic(fmt.Errorf("unable to create utxr during init genesis: %w", err))
 		}
 	}
